@@ -24,7 +24,7 @@ EXTENDS Naturals, Sequences, FiniteSets, TLC
 
 CONSTANTS
   Dev,          \* set of deviation identifiers whose "as written" clause is switched on
-  Emit(_)       \* how the report of a tree ([tree, rows: instance -> row]) leaves TLC (MC module: PrintT(ToJson(..)))
+  Emit(_)       \* how the report of a tree ([fam, tree, rows: {<<instance, row>>}]) leaves TLC (MC module: PrintT(ToJson(..)))
 
 DevFalsy == "FALSY-NONMAPPING-AS-EMPTY-NS"   \* PortNamespace.validate: `if not port_values: port_values = {}` (0, '' ...)
 DevDynNs == "DYNAMIC-NS-CREATED-BY-OUT"      \* get_port(create_dynamically=True) inserts into the sealed class-level spec
@@ -528,19 +528,20 @@ UnsuccessfulRet == [value |-> Int("7"), successful |-> FALSE]     \* `return Uns
 
 \* --- the universes of a run are given by the MC module -------------------------------------------------------
 CONSTANTS
-  Trees,            \* the port trees of this run
-  InputsFor(_),     \* C11: tree -> set of raw inputs
-  WorkFor(_)        \* C12: tree -> set of [calls, split, ret]
+  Families,         \* names of the families of this run
+  Trees(_),         \* family -> its port trees
+  InputsFor(_, _),  \* C11: family, tree -> set of raw inputs
+  WorkFor(_, _)     \* C12: family, tree -> set of [calls, split, ret]
 
-VARIABLES tree, phase, bad
-vars == <<tree, phase, bad>>
+VARIABLES fam, tree, phase, bad
+vars == <<fam, tree, phase, bad>>
 
 \* encodings for the report (compact JSON): atoms as "i:0" / "s:d" / "n:", mappings as objects (frozen ones carry "!fz")
 RECURSIVE Enc(_)
 Enc(v) == IF IsMap(v) THEN (IF v.fz THEN ("!fz" :> "1") ELSE <<>>) @@ [key \in Keys(v) |-> Enc(v.m[key])]
           ELSE IF v.k = "int" THEN "i:" \o v.a ELSE IF v.k = "str" THEN "s:" \o v.a ELSE "n:" \o v.k
 
-Init == tree \in Trees /\ phase = "chosen" /\ bad = {}
+Init == fam \in Families /\ tree \in Trees(fam) /\ phase = "chosen" /\ bad = {}
 
 \* C11: every input of the tree through the constructor
 Eval11(raw) ==
@@ -549,10 +550,10 @@ Eval11(raw) ==
   IN [raw |-> Enc(raw), exc |-> res.exc, why |-> res.why, parsed |-> Enc(res.parsed), dev |-> res.dev, fail |-> fail]
 Next11 ==
   /\ phase = "chosen"
-  /\ LET rows == [raw \in InputsFor(tree) |-> Eval11(raw)]
-     IN /\ Emit([tree |-> tree, rows |-> rows])
-        /\ bad' = {raw \in DOMAIN rows : rows[raw].fail # {} /\ rows[raw].dev = {}}   \* failing, not explained by a deviation clause
-  /\ phase' = "done" /\ UNCHANGED tree
+  /\ LET rows == {<<raw, Eval11(raw)>> : raw \in InputsFor(fam, tree)}            \* <<instance, row>>, each evaluated once
+     IN /\ Emit([fam |-> fam, tree |-> tree, rows |-> rows])
+        /\ bad' = {r[1] : r \in {x \in rows : x[2].fail # {} /\ x[2].dev = {}}}   \* failing, not explained by a deviation clause
+  /\ phase' = "done" /\ UNCHANGED <<fam, tree>>
 Spec11 == Init /\ [][Next11]_vars
 
 \* C12: every work item (calls, split, ret) through one or two processes of a class with this output tree
@@ -570,10 +571,10 @@ Eval12(w) ==
       procs |-> [j \in 1..Len(ps) |-> EncProc(ps[j])], dev |-> dev, fail |-> fail]
 Next12 ==
   /\ phase = "chosen"
-  /\ LET rows == [w \in WorkFor(tree) |-> Eval12(w)]
-     IN /\ Emit([tree |-> tree, rows |-> rows])
-        /\ bad' = {w \in DOMAIN rows : rows[w].fail # {} /\ rows[w].dev = {}}
-  /\ phase' = "done" /\ UNCHANGED tree
+  /\ LET rows == {<<w, Eval12(w)>> : w \in WorkFor(fam, tree)}
+     IN /\ Emit([fam |-> fam, tree |-> tree, rows |-> rows])
+        /\ bad' = {r[1] : r \in {x \in rows : x[2].fail # {} /\ x[2].dev = {}}}
+  /\ phase' = "done" /\ UNCHANGED <<fam, tree>>
 Spec12 == Init /\ [][Next12]_vars
 
 \* the invariant of both specifications: operational |= declarative on every instance (a deviation clause, when
